@@ -5,6 +5,7 @@ Property theorems about the models in `Model/{Stream,Timeline,Renderer,RenderSpe
 lemmas are in `Proofs/C03{Bpc,Ceil,Gain}.lean`.
 -/
 import Earverif.Proofs.C03Gain
+import Earverif.Proofs.C02Render
 namespace Earverif.Timeline
 open Earverif.Stream Earverif.RenderSpec
 
@@ -125,6 +126,67 @@ theorem C03_sum_of_items_linear (ga gb : Nat → V) (xa xb : List Rat) (os : Lis
 
 end
 
+/-! ### The composed renderer (uses `Earverif.Renderer.render_refines_spec`, `Proofs/C02Render.lean`) -/
+
+section Composed
+open Earverif.Renderer
+variable {V : Type} [RMod V] [LawfulRMod V]
+
+omit [RMod V] [LawfulRMod V] in
+/-- The acceptance predicate used by the composed theorems is the one of `bpc_eq_gainAt`. -/
+theorem objAccepted_iff (sr : Nat) (blocks : List (MetaBlock (V × V))) :
+    ObjAccepted sr blocks ↔ ObjAccepted' sr blocks :=
+  ⟨fun h => ⟨h.interp_ok, h.nonneg, h.start_nonneg⟩, fun h => ⟨h.interp_ok, h.nonneg, h.start_nonneg⟩⟩
+
+/-- DirectSpeakers part of the specified output at sample `s`. -/
+def dsPart (c : Cfg V) (dss : List (DsItem V)) (x : List (List Rat)) (s : Nat) : V :=
+  sumV (dss.map fun it => RMod.smul (xAt x it.track s) (gainAt c.sr (fixedTimeline it.blocks) s).row)
+
+/-- HOA part of the specified output at sample `s`. -/
+def hoaPart (c : Cfg V) (hoas : List (HoaItem V)) (x : List (List Rat)) (s : Nat) : V :=
+  sumV (hoas.map fun it => (gainAt c.sr (fixedTimeline it.blocks) s).mat (it.tracks.map fun tr => xAt x tr s))
+
+/-- **`C03_render_formula`** — every output sample of the real pipeline's model, for any blocking:
+`out[s] = direct(s) + Σ_k f[k]·diffuse(s + (N−1)//2 − k) + ds(s) + hoa(s)`, each term the exact sum over items of
+input sample × `gainAt`. -/
+theorem C03_render_formula (c : Cfg V) (objs : List (ObjItem V)) (dss : List (DsItem V)) (hoas : List (HoaItem V))
+    (hok : SessionOK c objs dss hoas) (parts : List (List (List Rat))) :
+    ∃ out, renderAll c objs dss hoas parts = .ok out ∧ out.length = parts.flatten.length ∧
+      ∀ s, s < parts.flatten.length → out[s]? =
+        some ((((objAt c.sr objs parts.flatten s).1 + specDiffuse c objs parts.flatten s) +
+          dsPart c dss parts.flatten s) + hoaPart c hoas parts.flatten s) := by
+  refine ⟨_, render_refines_spec c objs dss hoas hok parts, by simp [RenderSpec.out], ?_⟩
+  intro s hs
+  simp only [RenderSpec.out, List.getElem?_map, List.getElem?_range hs, Option.map_some]
+  rfl
+
+omit [LawfulRMod V] in
+/-- **`C03_direct_zero_latency`** — the direct part of Objects, the DirectSpeakers part and the HOA part of output
+sample `s` depend on the input only through input frame `s` (no latency, no look-ahead): two inputs that agree at
+frame `s` give the same three terms. -/
+theorem C03_direct_zero_latency (c : Cfg V) (objs : List (ObjItem V)) (dss : List (DsItem V)) (hoas : List (HoaItem V))
+    (x y : List (List Rat)) (s : Nat) (h : x.getD s [] = y.getD s []) :
+    (objAt c.sr objs x s).1 = (objAt c.sr objs y s).1 ∧ dsPart c dss x s = dsPart c dss y s ∧
+      hoaPart c hoas x s = hoaPart c hoas y s := by
+  have hx : ∀ tr, xAt x tr (s : Int) = xAt y tr (s : Int) := by
+    intro tr; unfold xAt; rw [if_pos (by omega), if_pos (by omega), Int.toNat_natCast, h]
+  refine ⟨?_, ?_, ?_⟩
+  · unfold objAt; simp only [hx]
+  · unfold dsPart; simp only [hx]
+  · unfold hoaPart; simp only [hx]
+
+omit [LawfulRMod V] in
+/-- **`C03_diffuse_group_delay`** — the diffuse part of output sample `s` is the per-loudspeaker decorrelation filter
+`f` (length `N`) applied to the diffuse gain stream with its group delay `(N − 1)//2` compensated:
+`Σ_{k<N} f[k] · diffuse(s + (N−1)//2 − k)`, `diffuse(t)` = diffuse half of `Σ_items x[t]·gainAt(t)` (0 outside the
+input). -/
+theorem C03_diffuse_group_delay (c : Cfg V) (objs : List (ObjItem V)) (x : List (List Rat)) (s : Nat) :
+    specDiffuse c objs x s =
+      sumV ((List.range c.taps.length).map fun k =>
+        RMod.pmul (c.taps.getD k 0) (objAt c.sr objs x ((s : Int) + ((c.taps.length - 1) / 2 : Nat) - k)).2) := rfl
+
+end Composed
+
 /-! ### Non-vacuity: a concrete accepted timeline (gap, jumpPosition with interpolationLength) -/
 
 /-- Sample rate 10: `[0, 3/10)` gain 1; gap; `[1/2, 4/5)` gain 2; contiguous `[4/5, 13/10)` gain 3 with
@@ -155,5 +217,63 @@ theorem exBlocks_accepted : ObjAccepted 10 exBlocks where
 /-- The specified gains of the example at samples 0..13: constant, silence in the gap, ramp, constant, silence. -/
 example : (List.range 14).map (fun s => (gainAt 10 (objTimeline none exBlocks) s).row) =
     [1, 1, 1, 0, 0, 2, 2, 2, 2, 12/5, 14/5, 3, 3, 0] := by decide +kernel
+
+/-! ### Non-vacuity of the composed theorems: two items, three Objects blocks with a gap and a jumpPosition -/
+
+open Earverif.Renderer in
+/-- One output channel (`V = Rat`), sample rate 10, `block_size = 2`, a 3-tap decorrelator (group delay 1). -/
+def exCfg : Cfg Rat := ⟨10, 2, [1/4, 1/2, 1/4], 1⟩
+
+/-- The Objects item: the timeline of `exBlocks` with `(direct, diffuse)` gains. -/
+def exObjBlocks : List (MetaBlock (Rat × Rat)) :=
+  [ ⟨none, none, some 0, some (3/10), false, none, (1, 0)⟩,
+    ⟨none, none, some (1/2), some (3/10), false, none, (2, 1)⟩,
+    ⟨none, none, some (4/5), some (1/2), true, some (1/4), (3, 0)⟩ ]
+
+open Earverif.Renderer in
+def exObjs : List (ObjItem Rat) := [⟨0, exObjBlocks⟩]
+
+open Earverif.Renderer in
+/-- A DirectSpeakers item on the same track: one block without timing (whole programme), gain 1/2. -/
+def exDss : List (DsItem Rat) := [⟨0, [⟨none, none, none, none, false, none, 1/2⟩]⟩]
+
+open Earverif.Renderer in
+theorem exSession_ok : SessionOK exCfg exObjs exDss [] where
+  block_size_pos := by decide
+  objs_ok := by
+    intro it hit
+    simp only [exObjs, List.mem_cons, List.not_mem_nil, or_false] at hit
+    subst hit
+    refine ⟨ok_of_toBool _ (by decide +kernel), ?_, ?_⟩
+    · intro m hm
+      simp only [exObjBlocks, List.mem_cons, List.not_mem_nil, or_false] at hm
+      rcases hm with rfl | rfl | rfl <;>
+        refine ⟨?_, ?_, ?_⟩ <;> intro d hd <;> cases hd <;> decide +kernel
+    · intro m ms h
+      simp only [exObjBlocks] at h
+      cases h
+      decide +kernel
+  dss_ok := by
+    intro it hit
+    simp only [exDss, List.mem_cons, List.not_mem_nil, or_false] at hit
+    subst hit
+    refine ⟨ok_of_toBool _ (by decide +kernel), ?_, ?_⟩
+    · intro m hm
+      simp only [List.mem_cons, List.not_mem_nil, or_false] at hm
+      subst hm
+      refine ⟨?_, ?_, ?_⟩ <;> intro d hd <;> cases hd
+    · intro m ms h
+      cases h
+      decide +kernel
+  hoas_ok := by intro it hit; cases hit
+
+open Earverif.Renderer in
+/-- The model run on 14 input frames split as `[3, 0, 1, 10]` returns what the specification says (kernel-evaluated on
+both sides), an instance of `render_refines_spec`. -/
+example : renderAll exCfg exObjs exDss []
+      [[[1], [2], [3]], [], [[4]], [[5], [6], [7], [8], [9], [10], [11], [12], [13], [14]]] =
+    .ok (RenderSpec.out exCfg exObjs exDss []
+      [[1], [2], [3], [4], [5], [6], [7], [8], [9], [10], [11], [12], [13], [14]]) :=
+  render_refines_spec exCfg exObjs exDss [] exSession_ok _
 
 end Earverif.Timeline
